@@ -134,3 +134,48 @@ Proof.
   vm_compute. repeat split; try congruence.
   intros H. specialize (H ltac:(congruence)). discriminate H.
 Qed.
+
+(** * Under races (Msv)
+
+    The theorems above take [srv_result_ok] as a hypothesis about server/server.go. For the interleaving model of the lock server
+    (Model/Sv.v: every interleaving of the request, expiry, session-end and shutdown steps; tied to the code by T2 layer 2, whose
+    oracle evaluates the same clause on every real response) it is a theorem, together with the converse direction for the
+    operations that have no plain refusal. Proofs: Proofs/SvWf.v (an invariant of [vstep], for EVERY item sequence). *)
+From Ldlm Require Import Model.Sv Proofs.SvDefs.
+From Ldlm Require Proofs.SvWf.
+
+(** Every finished call's response, in every reachable state: a success bit excludes an error; Lock and Unlock never answer
+    false without an error. TryLock's plain refusal (false, no error) and Renew (see below) are the exceptions. *)
+Theorem C14_responses_wellformed : forall cfg s tid t b e,
+  vreach cfg s -> v_thr s !! tid = Some t -> st_pc t = VFin (SResp b e) ->
+  (b = true -> e = None) /\
+  (match st_op t with STry _ _ _ _ _ | SRenew _ _ _ => True | _ => b = false -> e <> None end).
+Proof. exact SvWf.C14_responses_wellformed. Qed.
+Print Assumptions C14_responses_wellformed.
+
+(** ... which discharges the hypothesis of [C14_wellformed] / [C14_end_to_end] for every answer of Msv. *)
+Theorem C14_srv_result_ok_under_races : forall cfg s tid t b e,
+  vreach cfg s -> v_thr s !! tid = Some t -> st_pc t = VFin (SResp b e) -> srv_result_ok b e.
+Proof.
+  intros cfg s tid t b e Hr Ht Hpc He. destruct (SvWf.C14_responses_wellformed cfg s tid t b e Hr Ht Hpc) as [H _].
+  destruct b; [specialize (H eq_refl); contradiction|reflexivity].
+Qed.
+Print Assumptions C14_srv_result_ok_under_races.
+
+(** "Renew: locked=false -> an error" is false of the model and of the code (timermap.Reset finds the entry of a timer that has
+    already fired and returns (false, nil)): a reachable state in which a Renew has answered (false, no error) — the hold is even
+    still live, its callback has not run yet. *)
+Theorem C14_renew_strict_refuted : exists cfg s tid t n k lt,
+  vreach cfg s /\ v_thr s !! tid = Some t /\ st_op t = SRenew n k lt /\ st_pc t = VFin (SResp false None) /\ slive s n k.
+Proof. exact SvWf.C14_renew_strict_refuted. Qed.
+Print Assumptions C14_renew_strict_refuted.
+
+(** That is the only way: a Renew answers false without an error only when the lease timer of that very hold has fired, its entry is
+    still in the timer map and its callback goroutine is in flight: started and not returned (the oracle's clause for Renew). *)
+Theorem C14_renew_silent_refusal : forall cfg s tid t n k lt t',
+  vreach cfg s -> v_thr s !! tid = Some t -> st_op t = SRenew n k lt -> st_pc t = VTmReset ->
+  v_thr (vstep cfg s (VRun tid)) !! tid = Some t' -> st_pc t' = VFin (SResp false None) ->
+  exists id tm tid' x, v_timers s !! tkey n k = Some id /\ v_theap s !! id = Some tm /\ tm_st tm = TFired /\ tm_n tm = n /\ tm_k tm = k /\
+                       v_thr s !! tid' = Some x /\ st_op x = SExpire id /\ st_pc x <> VEnd.
+Proof. exact SvWf.C14_renew_silent_refusal_in_flight. Qed.
+Print Assumptions C14_renew_silent_refusal.
